@@ -271,7 +271,8 @@ func sameValue(a, b ssa.Value) bool {
 	ua, ok1 := a.(*ssa.UnOp)
 	ub, ok2 := b.(*ssa.UnOp)
 	if ok1 && ok2 && ua.Op == token.MUL && ub.Op == token.MUL && ua.X == ub.X {
-		if _, isAlloc := ua.X.(*ssa.Alloc); isAlloc {
+		switch ua.X.(type) {
+		case *ssa.Alloc, *ssa.FreeVar:
 			return true
 		}
 	}
@@ -286,13 +287,7 @@ func nilTestsOf(fn *ssa.Function, v ssa.Value) []*ssa.If {
 	if v.Referrers() != nil {
 		for _, r := range *v.Referrers() {
 			if st, ok := r.(*ssa.Store); ok && st.Val == v {
-				if a, ok := st.Addr.(*ssa.Alloc); ok && a.Referrers() != nil {
-					for _, ar := range *a.Referrers() {
-						if ld, ok := ar.(*ssa.UnOp); ok && ld.Op == token.MUL {
-							cands = append(cands, ld)
-						}
-					}
-				}
+				cands = append(cands, loadsOfAddr(st.Addr)...)
 			}
 		}
 	}
@@ -321,13 +316,7 @@ func guardedByNilErr(call *ssa.Call, target ssa.Instruction) bool {
 		if ev.Referrers() != nil {
 			for _, r := range *ev.Referrers() {
 				if st, ok := r.(*ssa.Store); ok && st.Val == ev {
-					if a, ok := st.Addr.(*ssa.Alloc); ok && a.Referrers() != nil {
-						for _, ar := range *a.Referrers() {
-							if ld, ok := ar.(*ssa.UnOp); ok && ld.Op == token.MUL {
-								cands = append(cands, ld)
-							}
-						}
-					}
+					cands = append(cands, loadsOfAddr(st.Addr)...)
 				}
 			}
 		}
@@ -517,6 +506,24 @@ func retResults(ret *ssa.Return) []ssa.Value {
 				b = b.Preds[0]
 			} else {
 				b = nil
+			}
+		}
+	}
+	return out
+}
+
+// loadsOfAddr: the loads of a local variable (Alloc) or captured variable (FreeVar) address.
+func loadsOfAddr(addr ssa.Value) []ssa.Value {
+	var out []ssa.Value
+	switch addr.(type) {
+	case *ssa.Alloc, *ssa.FreeVar:
+	default:
+		return nil
+	}
+	if refs := addr.Referrers(); refs != nil {
+		for _, ar := range *refs {
+			if ld, ok := ar.(*ssa.UnOp); ok && ld.Op == token.MUL {
+				out = append(out, ld)
 			}
 		}
 	}
